@@ -234,6 +234,8 @@ class C10World(World):
             out.append(dict(op, how="perturb"))
         if op.get("op") == "load" and op.get("how") != "full":
             out.append(dict(op, how="full"))
+        if op.get("op") == "load" and op.get("assign"):
+            o = dict(op); o.pop("assign"); out.append(o)
         if op.get("op") == "fwdbwd" and op.get("dir") == "inverse":
             out.append(dict(op, dir="forward"))
         return out
@@ -350,7 +352,7 @@ class C10World(World):
         elif kind == "use_cache":
             op["on"] = sched.chance(0.6)
         elif kind == "update":
-            op.update(how=sched.pick(["sgd", "perturb", "data_assign"]), seed=data.seed30(),
+            op.update(how=sched.pick(["sgd", "perturb", "data_assign", "data_inplace", "copy", "replace_param"]), seed=data.seed30(),
                       mag=data.pick([0.1, 0.3, 0.3, 1.0]))
             if op["how"] == "sgd" and self.cfg.get("real_optim"):
                 op["real_optim"] = True
@@ -361,6 +363,11 @@ class C10World(World):
             op.update(seed=data.seed30(), mag=data.pick([0.3, 0.5, 1.0]), how=how)
             if how != "full":
                 op["pick"] = fault.seed30()
+            else:
+                if sched.chance(0.25):
+                    op["assign"] = True
+                if faulty and fault.chance(0.1):
+                    op["interrupt"] = fault.randint(1, 8 * (8 if self.cfg.get("opcode") else 1))
         elif kind == "restart":
             op["seed"] = data.seed30()
         return op
@@ -689,9 +696,22 @@ class C10World(World):
                 for i, (name, p) in enumerate(sorted(self.M.named_parameters())):
                     noise = core.seeded(op["seed"] + 31 * i, tuple(p.shape), dtype=p.dtype, scale=float(op["mag"]))
                     if how == "data_assign":
-                        p.data = p.data + noise
+                        p.data = p.data + noise          # new storage, same Parameter object
+                    elif how == "data_inplace":
+                        p.data.add_(noise)               # in place through .data: p._version is NOT bumped
+                    elif how == "copy":
+                        p.copy_(p.detach() + noise)      # in place, version bumped
+                    elif how == "replace_param":
+                        pass
                     else:
                         p.add_(noise)
+            if how == "replace_param":
+                # what load_state_dict(assign=True) or manual surgery does: new Parameter objects
+                for mod in self.M.modules():
+                    for name, p in list(mod._parameters.items()):
+                        if p is not None:
+                            noise = core.seeded(op["seed"] + len(name), tuple(p.shape), dtype=p.dtype, scale=float(op["mag"]))
+                            mod._parameters[name] = torch.nn.Parameter(p.detach() + noise, requires_grad=p.requires_grad)
 
     def _load(self, op, log):
         torch = _T()
@@ -703,10 +723,17 @@ class C10World(World):
         if any(flags):
             self.probes["load_with_filled_cache"] += 1
         if how == "full":
+            kw = {"assign": True} if op.get("assign") else {}
+            k = op.get("interrupt") if self.cfg["faulty"] else None
             try:
-                self.M.load_state_dict(sd, strict=True)
+                fired, _, _ = core.call_interruptible(lambda: self.M.load_state_dict(sd, strict=True, **kw), k,
+                                                      opcode=self.cfg.get("opcode", False))
             except Exception as e:   # noqa: BLE001
                 raise Violation("raises_only_when_cached", "load_state_dict: %s: %s" % (type(e).__name__, str(e)[:300]))
+            if k:
+                (self.faults if fired else self.faults_missed)["interrupt_in_load"] += 1
+                if fired:
+                    self.after_fault = True
         elif how in ("subset", "missing_strict"):
             # a seeded, non-empty, proper-or-full subset of the keys: own parameters only, sub-module
             # parameters only (Householder vectors, permutation) or any mixture
